@@ -117,7 +117,7 @@ extern "C" void h_sort_part_small()
    vp_cover(1);
 }
 
-// the whole array, concrete length: with NS >= 26 (thorough variant) this is the real quicksort partitioning, below it is shell sort
+// the whole array, concrete length: below 25 elements this is the shell sort branch of SPxQuicksort (NS >= 26 would be the partitioning branch: not tractable)
 extern "C" void h_sort_quick_full()
 {
    int keys[NS]; Cmp c; int before[VMAX + 1], after[VMAX + 1];
